@@ -8,9 +8,13 @@ import (
 	"hash/fnv"
 	"os"
 	"path/filepath"
+	"regexp"
+	"runtime"
 	"strconv"
 	"strings"
+	"sync/atomic"
 	"testing"
+	"time"
 	"unicode"
 
 	"pgregory.net/rapid"
@@ -110,11 +114,92 @@ func Check(t *testing.T, quick, thorough int, prop func(*rapid.T)) {
 	}
 	_ = flag.Set("rapid.checks", strconv.Itoa(N(quick, thorough)))
 	_ = flag.Set("rapid.seed", strconv.FormatUint(DeriveSeed(t.Name()), 10))
-	rapid.Check(t, prop)
+	name := t.Name()
+	rapid.Check(t, func(rt *rapid.T) {
+		beatName.Store(name)
+		beatDesc.Store("")
+		beat.Store(time.Now().UnixNano())
+		prop(rt)
+		beat.Store(time.Now().UnixNano())
+	})
+	beat.Store(0)
+}
+
+// ---- watchdog for hangs that a synctest bubble cannot see ----
+//
+// A goroutine waiting for a sync.Mutex is not "durably blocked" for testing/synctest: a lock-order or
+// lock-held-across-a-blocking-send mistake inside glb leaves the bubble stuck without a deadlock report, and the only
+// symptom is the test deadline (not a verdict). The watchdog runs outside any bubble, on the real clock: when no
+// generated case has started or finished for hangAfter AND the goroutine dump shows a goroutine that has been waiting
+// on a sync primitive for minutes with a glb frame on its stack, it prints the evidence and ends the process; the
+// driver reports that as a violation with the dump as replay log. Long cases without such a goroutine are left alone.
+
+var (
+	beat     atomic.Int64
+	beatName atomic.Value
+	beatDesc atomic.Value
+)
+
+// Describe records a rendering of the case that is running, for the watchdog's report.
+func Describe(s string) { beatDesc.Store(s) }
+
+var blockedInGlb = regexp.MustCompile(`(?s)^goroutine (\d+) \[(sync\.Mutex\.Lock|sync\.RWMutex\.R?Lock|semacquire|sync\.Cond\.Wait)[^\]]*\]:.*github\.com/whoisnian/glb/`)
+
+// stuck returns, per goroutine id, the stacks of goroutines waiting on a lock with a glb frame on their stack.
+func stuck() (map[string]string, string) {
+	buf := make([]byte, 8<<20)
+	buf = buf[:runtime.Stack(buf, true)]
+	out := map[string]string{}
+	for _, g := range strings.Split(string(buf), "\n\n") {
+		if m := blockedInGlb.FindStringSubmatch(g); m != nil {
+			out[m[1]] = g
+		}
+	}
+	return out, string(buf)
+}
+
+func startWatchdog() {
+	hangAfter := 45 * time.Second
+	if v, err := strconv.Atoi(os.Getenv("VERIF_HANG_SECS")); err == nil && v > 0 {
+		hangAfter = time.Duration(v) * time.Second
+	}
+	go func() {
+		for {
+			time.Sleep(2 * time.Second)
+			b := beat.Load()
+			if b == 0 || time.Since(time.Unix(0, b)) < hangAfter {
+				continue
+			}
+			first, _ := stuck()
+			if len(first) == 0 {
+				continue
+			}
+			time.Sleep(15 * time.Second)
+			if beat.Load() != b {
+				continue
+			}
+			second, buf := stuck()
+			var culprits []string
+			for id, g := range second {
+				if first[id] == g { // the same goroutine, on the same stack, 15 s later
+					culprits = append(culprits, g)
+				}
+			}
+			if len(culprits) == 0 {
+				continue
+			}
+			name, _ := beatName.Load().(string)
+			desc, _ := beatDesc.Load().(string)
+			fmt.Printf("HANG-IN-GLB: test %s made no progress for %s; %d goroutine(s) have been waiting on a lock inside glb code all that time\ncase: %s\n\n%s\n\nall goroutines:\n%s\n", name, time.Since(time.Unix(0, b)).Round(time.Second), len(culprits), desc, strings.Join(culprits, "\n\n"), buf)
+			ev.Flush()
+			os.Exit(4)
+		}
+	}()
 }
 
 // Main runs the tests and flushes evidence.
 func Main(m *testing.M) {
+	startWatchdog()
 	code := m.Run()
 	ev.Flush()
 	os.Exit(code)
